@@ -650,6 +650,10 @@ def targeted(ctx):
 
 
 def run(ctx, replay=None):
+    import warnings
+
+    warnings.simplefilter("ignore")
+    np.seterr(all="ignore")
     ctx.rule = (
         "correspondence: exhaustive block grids (rank<=3, <=40 blocks, with and without an extra_chunks coordinate) + seeded random "
         "large grids + real nodes; seed-sequence children of 1-5 successive constructions per generator. search: a case is "
